@@ -1,12 +1,86 @@
-(** Property C10 — malformed templates are rejected with a located error.
-    OBLIGATIONS: C10_nonvacuous *)
+(** Property C10 — malformed templates are rejected with a located error, never mis-compiled.
+    Proved: the command-line generator emits nothing unless parsing succeeded without error; the indentation
+    rule; and the nesting rules of elements, comments and filters as the parser applies them in every state.
+    That each error carries a position inside the file is checked by the correspondence run (fault injection at
+    every applicable position), not proved.
+    OBLIGATIONS: C10_no_code_on_error C10_indent_rule C10_void_or_inline_content_refused C10_comment_content_refused
+                 C10_unknown_filter_refused C10_nonvacuous *)
 From GV Require Import Compiler.Compile.
+From Coq Require Import Lia.
+Open Scope N_scope.
+
+(** `goht generate` writes code only for a file that parsed completely and without error *)
+Theorem C10_no_code_on_error : forall input out,
+  cli_generate input = Some out -> exists t, compile_parse input = ODone t None /\ generate t = (out, None).
+Proof.
+  intros input out H. unfold cli_generate in H. destruct (compile_parse input) as [t e| | |]; try discriminate.
+  destruct e; [discriminate|]. destruct (generate t) as [o [err|]] eqn:E; [discriminate|]. injection H as ->.
+  exists t. split; [reflexivity|exact E].
+Qed.
+Print Assumptions C10_no_code_on_error.
+
+(** a line may be indented at most one level deeper than the previous one, and only with tabs *)
+Theorem C10_indent_rule : forall indent l,
+  validate_indent indent l = None <->
+  (List.length indent <= l_indent l \/ (mem_byte 32 indent = false /\ List.length indent = S (l_indent l)))%nat.
+Proof.
+  intros indent l. unfold validate_indent.
+  destruct (Nat.eqb_spec (List.length indent) 0) as [E0|N0]; [split; [intros _; left; lia|reflexivity]|].
+  destruct (Nat.leb_spec (List.length indent) (l_indent l)) as [Hle|Hgt]; [split; [intros _; left; exact Hle|reflexivity]|].
+  destruct (mem_byte 32 indent) eqn:Es.
+  - split; [discriminate|]. intros [H|[H _]]; [lia|discriminate].
+  - destruct (Nat.ltb_spec (l_indent l + 1) (List.length indent)) as [Hdeep|Hone].
+    + split; [discriminate|]. intros [H|[_ H]]; lia.
+    + split; [intros _; right; split; [reflexivity|lia]|reflexivity].
+Qed.
+Print Assumptions C10_indent_rule.
+
+(** nested content under an element whose line is complete and that is void / self-closed or already has inline
+    content is refused, in every parser state *)
+Theorem C10_void_or_inline_content_refused : forall lexfuel fuel origin indent d p,
+  e_complete d = true -> t_typ (p_peek p) = TIndent -> (indent < zlen (t_lit (p_peek p)))%Z ->
+  e_disallow d || e_selfclosing d = true ->
+  exists e, parse_element lexfuel fuel origin indent d p = RErr e p.
+Proof.
+  intros lexfuel fuel origin indent d p Hc Ht Hi Hd. unfold parse_element. cbv zeta. rewrite Hc, Ht.
+  destruct (Z.leb_spec (zlen (t_lit (p_peek p))) indent); [lia|]. rewrite Hd.
+  destruct (e_selfclosing d); eexists; reflexivity.
+Qed.
+Print Assumptions C10_void_or_inline_content_refused.
+
+(** nested content under a one-line comment is refused *)
+Theorem C10_comment_content_refused : forall lexfuel fuel origin indent p,
+  top_kind p = KComment origin indent ->
+  t_lit origin <> [] -> t_typ (p_peek p) = TIndent -> (indent < zlen (t_lit (p_peek p)))%Z ->
+  exists e, parse_step lexfuel fuel p = RErr e p.
+Proof.
+  intros lexfuel fuel origin indent p Hk Hl Ht Hi. unfold parse_step. cbv zeta. rewrite Hk, Ht.
+  destruct (Z.leb_spec (zlen (t_lit (p_peek p))) indent); [lia|].
+  destruct (t_lit origin); [congruence|]. cbn. eexists; reflexivity.
+Qed.
+Print Assumptions C10_comment_content_refused.
+
+(** a filter the language does not have is refused (by the parser, for whatever token text the lexer let through) *)
+Theorem C10_unknown_filter_refused : forall lexfuel fuel indent p tk p1,
+  t_typ (p_peek p) = TFilterStart -> p_next lexfuel p = ROk (tk, p1) ->
+  mem_bytes (t_lit tk) [lit "javascript"; lit "css"; lit "plain"; lit "escaped"; lit "preserve"] = false ->
+  exists e, handle_node lexfuel fuel indent p = RErr e p1.
+Proof.
+  intros lexfuel fuel indent p tk p1 Ht Hn Hm.
+  cbn [mem_bytes] in Hm. rewrite !Bool.orb_false_iff in Hm. destruct Hm as (H1 & H2 & H3 & H4 & H5 & _).
+  destruct fuel; cbn [handle_node]; cbv zeta; rewrite Ht, Hn, H1, H2, H3, H4, H5; cbn; eexists; reflexivity.
+Qed.
+Print Assumptions C10_unknown_filter_refused.
 
 (** the model rejects an unknown filter with a position on the faulty line *)
 Example C10_nonvacuous :
   match compile_parse (lit "@goht T() {" ++ [10; 9] ++ lit "%p" ++ [10; 9] ++ lit ":nosuch" ++ [10] ++ lit "}" ++ [10]) with
   | ODone _ (Some (PosErr l c _)) => Z.eqb l 3 && Z.eqb c 3
   | _ => false
-  end = true.
-Proof. vm_compute. reflexivity. Qed.
+  end = true
+  /\ cli_generate (lit "@goht T() {" ++ [10; 9] ++ lit "%br" ++ [10; 9; 9] ++ lit "%p" ++ [10] ++ lit "}" ++ [10]) = None
+  /\ cli_generate (lit "@goht T() {" ++ [10; 9] ++ lit "%p x" ++ [10; 9; 9] ++ lit "%p" ++ [10] ++ lit "}" ++ [10]) = None
+  /\ cli_generate (lit "@goht T() {" ++ [10; 9] ++ lit "/ c" ++ [10; 9; 9] ++ lit "%p" ++ [10] ++ lit "}" ++ [10]) = None
+  /\ cli_generate (lit "@goht T() {" ++ [10; 9] ++ lit "%p" ++ [10; 9; 9; 9] ++ lit "%p" ++ [10] ++ lit "}" ++ [10]) = None.
+Proof. vm_compute. repeat split; reflexivity. Qed.
 Print Assumptions C10_nonvacuous.
